@@ -542,7 +542,7 @@ outer2:
 			if limitSid {
 				layer.wantedSid = 0
 			}
-			t.setLayerInfo(layer)
+			t.updateWantedLayers(layer)
 		}
 	}()
 
